@@ -2,8 +2,10 @@
 use vmon::report::parse_args;
 
 mod gen;
+mod hist;
 mod util;
 mod c11;
+mod probe;
 mod c13;
 mod c14;
 mod c15;
@@ -13,6 +15,7 @@ mod c18;
 fn main() {
     let args = parse_args();
     let code = match args.prop.as_str() {
+        "PROBE" => probe::run(&args),
         "C11" => c11::run(&args),
         "C13" => c13::run(&args),
         "C14" => c14::run(&args),
